@@ -242,6 +242,70 @@ def corruptions():
     return C
 
 
+# ---- Part 3: for the derives sharing the flag-style attribute parser, EVERY parameter sequence up to a length bound:
+# whatever the derive accepts must be a well-formed, non-repeating, non-contradictory sentence of the documented grammar
+P3_TOK = ["ignore", "forward", "owned", "ref", "ref_mut", "source", "backtrace", "not(source)", "not(backtrace)", "not(forward)", "x", "skip"]
+P3_POS = {   # (derive, position) -> (template, documented parameters)
+    ("Deref", "item"): ("#[deref(@)] struct S(Box<u8>);", {"forward"}),
+    ("Deref", "field"): ("struct S { #[deref(@)] a: Box<u8>, b: u8 }", {"forward", "ignore"}),
+    ("DerefMut", "field"): ("struct S { #[deref_mut(@)] a: Box<u8>, b: u8 }", {"forward", "ignore"}),
+    ("Index", "field"): ("struct S { #[index(@)] a: Vec<u8>, b: u8 }", {"ignore"}),
+    ("IndexMut", "field"): ("struct S { #[index_mut(@)] a: Vec<u8>, b: u8 }", {"ignore"}),
+    ("IntoIterator", "item"): ("#[into_iterator(@)] struct S(Vec<u8>);", {"owned", "ref", "ref_mut"}),
+    ("IntoIterator", "field"): ("struct S { #[into_iterator(@)] a: Vec<u8>, b: u8 }", {"owned", "ref", "ref_mut", "ignore"}),
+    ("IsVariant", "variant"): ("enum E { #[is_variant(@)] A, B }", {"ignore"}),
+    ("TryInto", "item"): ("#[try_into(@)] enum E { A(u8), B }", {"owned", "ref", "ref_mut", "ignore"}),
+    ("TryInto", "variant"): ("enum E { #[try_into(@)] A(u8), B(u16) }", {"owned", "ref", "ref_mut", "ignore"}),
+    ("TryInto", "field"): ("enum E { A(#[try_into(@)] u8, u16), B }", {"ignore"}),
+    ("Unwrap", "item"): ("#[unwrap(@)] enum E { A(u8), B }", {"owned", "ref", "ref_mut", "ignore"}),
+    ("Unwrap", "variant"): ("enum E { #[unwrap(@)] A(u8), B }", {"owned", "ref", "ref_mut", "ignore"}),
+    ("TryUnwrap", "item"): ("#[try_unwrap(@)] enum E { A(u8), B }", {"owned", "ref", "ref_mut", "ignore"}),
+    ("TryUnwrap", "variant"): ("enum E { #[try_unwrap(@)] A(u8), B }", {"owned", "ref", "ref_mut", "ignore"}),
+    ("Error", "field"): ("struct S { #[error(@)] a: E, b: u8 }", {"source", "backtrace", "not(source)", "not(backtrace)", "ignore"}),
+    ("Error", "variant"): ("enum X { #[error(@)] A { a: E }, B }", {"ignore"}),
+    ("Error", "item"): ("#[error(@)] struct S { a: E }", {"ignore"}),
+    ("Mul", "item"): ("#[mul(@)] struct S(u8);", {"forward"}),
+    ("Shr", "item"): ("#[shr(@)] struct S(u8);", {"forward"}),
+    ("MulAssign", "item"): ("#[mul_assign(@)] struct S(u8);", {"forward"}),
+    ("Mul", "enum"): ("#[mul(@)] enum E { A(u8) }", {"forward"}),
+}
+
+
+def part3(chk, thorough):
+    L = 4 if thorough else 3
+    reqs, meta = [], []
+    for (d, pos), (tmpl, allowed) in P3_POS.items():
+        for k in range(1, L + 1):
+            for seq in itertools.product(P3_TOK, repeat=k):
+                reqs.append({"derive": d, "item": tmpl.replace("@", ", ".join(seq))})
+                meta.append((d, pos, seq, allowed))
+    res = svc(reqs)
+    accepted = 0
+    for (d, pos, seq, allowed), r, q in zip(meta, res, reqs):
+        chk.count(states=1, transitions=1)
+        if r["k"] != "ok":
+            if r["k"] == "panic" and r.get("class") != "deliberate":
+                chk.violation("part 3: internal failure (%s %s)" % (d, pos), q["item"], r.get("msg", "") + " " + r.get("loc", ""))
+            continue
+        accepted += 1
+        base = [t[4:-1] if t.startswith("not(") else t for t in seq]
+        allowed = set(allowed) | ({"not(forward)"} if "forward" in allowed else set())   # the negated form of a documented flag
+        problem = None
+        if any(t not in allowed for t in seq):
+            problem = "parameter outside the documented set accepted"
+        elif len(set(base)) != len(base):
+            problem = "repeated or contradictory parameter accepted"
+        elif "ignore" in seq and len(seq) > 1:
+            problem = "`ignore` combined with other parameters accepted"
+        if problem:
+            chk.outcome("part3-silently-accepted")
+            chk.violation("silently accepted: %s (%s, %s position)" % (problem, d, pos), q["item"], "accepted parameter sequence: %s; documented: %s" % (list(seq), sorted(allowed)))
+        else:
+            chk.outcome("part3-accepted-wellformed")
+    chk.part("3_flag_parameter_sequences", positions=len(P3_POS), tokens=len(P3_TOK), max_len=L, sequences=len(reqs), accepted=accepted,
+             oracle="every accepted sequence uses only documented parameters of that position, none twice (also not as X and not(X)), and `ignore` alone")
+
+
 def run(chk, tier):
     thorough = tier == "thorough"
     # ---------------- Part 1: synonymous rewrites
@@ -313,6 +377,7 @@ def run(chk, tier):
             else:
                 chk.outcome("corruption-accepted")
                 chk.violation("silently accepted (rustc too): %s (%s)" % (c.meta["cls"], c.meta["d"]), c.meta["item"], "the program compiled")
+    part3(chk, thorough)
     chk.part("2_corruptions", corruptions=len(C), decided_by_rustc=len(need_rustc),
              classes=sorted({cls.split(" `")[0] for _, cls, _, _ in C})[:40])
     chk.sample({"corruption": C[3][2], "class": C[3][1], "verdict": "rejected"})
